@@ -1,0 +1,14 @@
+//go:build verif
+
+package statecache
+
+// VerifYield, when non-nil, is called immediately before each access to a shared cache map in
+// StateCache.Get and StateCache.commit. It exists only in builds with the `verif` tag and lets an
+// external test harness choose the interleaving of concurrent lookups and commits deterministically.
+var VerifYield func(point string)
+
+func verifYield(p string) {
+	if f := VerifYield; f != nil {
+		f(p)
+	}
+}
